@@ -131,7 +131,11 @@ func (c14) Gen(r *sim.Rand, tier string, run uint64) *sim.Scenario {
 		sc.Cfg["e"] = 0
 		sc.Cfg["sp"] = 0x01FF
 	}
-	if kind == 0 && r.Chance(1, 4) {
+	if kind == 0 && sc.Cfg["sink"] == 0 && r.Chance(1, 6) {
+		// the routine is run, re-uploaded with other constants (same opcodes, same lengths) and
+		// run again on the same System: the second trace describes what is in memory now
+		sc.Cfg["reupload"] = 1
+	} else if kind == 0 && r.Chance(1, 4) {
 		// the caller has program-counter hooks installed (on instruction starts and/or on the
 		// target); they have side effects, so running them more or less often shows
 		pcv := sc.Cfg["pc"]
@@ -149,6 +153,9 @@ func (c14) Gen(r *sim.Rand, tier string, run uint64) *sim.Scenario {
 			sc.Cfg[fmt.Sprintf("hook%d", i)] = a
 		}
 		sc.Cfg["nhooks"] = int64(n)
+		if sc.Cfg["sink"] == 0 && r.Chance(1, 4) {
+			sc.Cfg["hookdetach"] = 1 // the first hook also detaches the Logger (tracing switched off from inside the run)
+		}
 	}
 	if kind == 1 && r.Chance(1, 6) {
 		pcv := sc.Cfg["pc"]
@@ -249,8 +256,19 @@ func c14sys(sc *sim.Scenario, env *sim.Env) *sim.Violation {
 	panicsBefore := sim.LibraryGoroutinePanics()
 	smA.S.Logger = w
 	var retA bool
-	pA, pvA := sim.RecoverLib(func() { retA = smA.S.RunUntil(target, budget) })
+	reup := sc.C("reupload") != 0 && sc.C("nhooks") == 0
+	mark1 := 0
+	pA, pvA := sim.RecoverLib(func() {
+		retA = smA.S.RunUntil(target, budget)
+		if reup {
+			flushLogger(w)
+			mark1 = len(ss.All())
+			c14reupload(smA, sc)
+			retA = smA.S.RunUntil(target, budget)
+		}
+	})
 	flushLogger(w)
+	st.ProbeIf(reup, "routine_reuploaded_and_run_again")
 	st.ProbeIf(sc.C("rc") == 2, "logger_is_bufio_writer")
 	if ss.Plan == sim.SinkPanic {
 		// the caller's Logger panicked: whatever RunUntil makes of it, the panic belongs on the
@@ -271,7 +289,13 @@ func c14sys(sc *sim.Scenario, env *sim.Env) *sim.Violation {
 	loadSystem(smB, sc)
 	c14hooks(smB, sc, nil)
 	var retB bool
-	pB, pvB := sim.RecoverLib(func() { retB = smB.S.RunUntil(target, budget) })
+	pB, pvB := sim.RecoverLib(func() {
+		retB = smB.S.RunUntil(target, budget)
+		if reup {
+			c14reupload(smB, sc)
+			retB = smB.S.RunUntil(target, budget)
+		}
+	})
 	regsB := cpuA{&smB.S.CPU}.Regs()
 	st.SimCycles += regsA.AllCycles + regsB.AllCycles
 	env.ObsBool(pA)
@@ -322,7 +346,8 @@ func c14sys(sc *sim.Scenario, env *sim.Env) *sim.Violation {
 	cpu := cpuA{&smC.S.CPU}
 	var recs []preStep
 	endedOnTarget := false
-	pC, _ := sim.RecoverLib(func() {
+	refPass := func() {
+		recs, endedOnTarget = nil, false
 		for cycles := uint64(0); cycles < budget; {
 			r := cpu.Regs()
 			ins := make([]byte, 4)
@@ -336,6 +361,16 @@ func c14sys(sc *sim.Scenario, env *sim.Env) *sim.Violation {
 			}
 			n, _ := cpu.Step()
 			cycles += uint64(n)
+		}
+	}
+	var recs1 []preStep
+	onTarget1 := false
+	pC, _ := sim.RecoverLib(func() {
+		refPass()
+		if reup {
+			recs1, onTarget1 = recs, endedOnTarget
+			c14reupload(smC, sc)
+			refPass()
 		}
 	})
 	if pC {
@@ -351,11 +386,31 @@ func c14sys(sc *sim.Scenario, env *sim.Env) *sim.Violation {
 	if endedOnTarget {
 		st.MarkNontrivial()
 	}
-	lines := splitLines(ss.All())
+	traceBytes := ss.All()
+	if reup {
+		// the first run's lines against the first run's instructions; the rest below
+		l1 := splitLines(traceBytes[:mark1])
+		if !(len(l1) == len(recs1) || (onTarget1 && len(l1) == len(recs1)-1)) {
+			return &sim.Violation{Oracle: "trace_line_count", Step: -1, Msg: fmt.Sprintf("first run: %d trace lines for %d instructions about to execute", len(l1), len(recs1))}
+		}
+		if v := checkLines(l1, recs1, st); v != nil {
+			v.Msg = "first run: " + v.Msg
+			return v
+		}
+		traceBytes = traceBytes[mark1:]
+	}
+	lines := splitLines(traceBytes)
 	if ss.Plan == sim.SinkOK {
 		// one line per instruction that executes; whether the instruction AT the target (which is
 		// never executed) also gets a line is not fixed by the property
 		okCount := len(lines) == len(recs) || (endedOnTarget && len(lines) == len(recs)-1)
+		if sc.C("hookdetach") != 0 && smA.S.Logger == nil {
+			// tracing was switched off part-way: the lines up to then are checked, their number is not
+			okCount = len(lines) <= len(recs)
+			if len(lines) < len(recs) {
+				recs = recs[:len(lines)]
+			}
+		}
 		if !okCount {
 			return &sim.Violation{Oracle: "trace_line_count", Step: -1, Msg: fmt.Sprintf("%d trace lines for %d instructions about to execute (incl. the one at the target)", len(lines), len(recs))}
 		}
@@ -377,6 +432,23 @@ func c14sys(sc *sim.Scenario, env *sim.Env) *sim.Violation {
 	return checkLines(lines, recs, st)
 }
 
+// c14reupload: the host uploads the routine again with other constants (the last operand byte
+// of every instruction that has one and is no branch, jump or block move gets bit 0 flipped;
+// opcodes and lengths stay) and puts the CPU back to the start state.
+func c14reupload(sm *SysMachine, sc *sim.Scenario) {
+	addr := uint32(sc.C("pc")) & 0xFFFFFF
+	for _, op := range sc.Ops {
+		b := op.B
+		if len(b) >= 2 && !ctrlOpcodes[b[0]] && b[0] != 0x44 && b[0] != 0x54 && b[0]&0x1F != 0x10 {
+			at := addr&0xFF0000 | (addr+uint32(len(b))-1)&0xFFFF
+			v := b[len(b)-1] ^ 0x01
+			sim.RecoverLib(func() { sm.S.Bus.EaWrite(at, v) })
+		}
+		addr = addr&0xFF0000 | (addr+uint32(len(b)))&0xFFFF
+	}
+	cpuA{&sm.S.CPU}.SetRegs(startRegs(sc))
+}
+
 // c14hooks installs the scenario's program-counter hooks (or none) on a pooled System. Each
 // hook bumps a cell at the top of WRAM page $1F: a traced run that fires a hook more or less
 // often than an untraced one leaves different memory.
@@ -393,8 +465,15 @@ func c14hooks(sm *SysMachine, sc *sim.Scenario, st *sim.Stats) {
 	s := sm.S
 	for i := 0; i < n; i++ {
 		cell := 0x1FF0 + i
+		detach := i == 0 && sc.C("hookdetach") != 0
 		hooks[uint32(sc.C(fmt.Sprintf("hook%d", i)))&0xFFFFFF] = func() {
 			s.WRAM[cell]++
+			if detach && s.Logger != nil {
+				s.Logger = nil // the host switches tracing off from inside its hook
+				if st != nil {
+					st.Probe("logger_detached_by_hook")
+				}
+			}
 			if st != nil {
 				st.Probe("pc_hook_fired_in_traced_run")
 			}
